@@ -374,8 +374,9 @@ class NFA(fa.FA):
         )
         reachable_final_states = reachable_states & new_final_states
 
-        for state in self.states - reachable_states:
-            new_transitions.pop(state, None)
+        # Also drops rows keyed by names that are not states
+        for state in new_transitions.keys() - reachable_states:
+            new_transitions.pop(state)
 
         return reachable_states, new_transitions, reachable_final_states
 
